@@ -213,6 +213,46 @@ func H_Overlapping() {
 	zv.Reach("done")
 }
 
+const dataDir = "/verif/engine/harness/c16/testdata/"
+
+func exeFile(it *exec.Interpreter, file string, in r.ElementMap) (o outcome) {
+	defer func() { o.p = recover() }()
+	o.res, o.err = it.LoadFile(dataDir + file).Execute(in)
+	return
+}
+
+// H_FileMode: the same entry file (importing modules of its own directory and
+// of a sub-directory) is executed repeatedly in one process - as the HTTP
+// handler does per request - on one interpreter object or on fresh ones, with
+// a failing file program in between: every execution yields what the first
+// one yields.
+func H_FileMode() {
+	a := zv.Float64("A")
+	zv.Assume(a == a)
+	shared := zv.Choose(2) == 0
+	it := newIt()
+	pick := func() *exec.Interpreter {
+		if shared {
+			return it
+		}
+		return newIt()
+	}
+	n := 1 + zv.Choose(2)
+	for k := 0; k < n; k++ {
+		if zv.Choose(2) == 1 {
+			o := exeFile(pick(), "抛.zn", r.ElementMap{"A": value.NewNumber(a)})
+			zv.Assert(o.p == nil && o.err != nil, "file mode: the failing program fails")
+		} else {
+			o := exeFile(pick(), "主.zn", r.ElementMap{"A": value.NewNumber(a)})
+			zv.Assert(o.p == nil && o.err == nil && isSame(o.res, a*2+4), "file mode: an earlier execution of the same file")
+		}
+	}
+	o := exeFile(pick(), "主.zn", r.ElementMap{"A": value.NewNumber(a)})
+	zv.Assert(o.p == nil, "file mode: no panic")
+	zv.Assert(o.err == nil && isSame(o.res, a*2+4), "a file program (with imports from its directory) behaves the same however many executions went before in this process")
+	zv.Reach("done")
+}
+
 func isSame(e r.Element, want float64) bool {
 	n, ok := e.(*value.Number)
 	return ok && zv.SameFloat(n.GetValue(), want)
